@@ -32,6 +32,7 @@ type EngCase struct {
 	// Layout of the skip policy in the project file: 0 the env's own diff block; 1 a project-level diff block, env without
 	// one; 2 a project-level diff block with the skip policy and an env diff block that holds another setting only
 	// (the layout of the doc comment of Diff.Extend: the env block extends the global one)
+	// 3: a project-level diff block and an env whose own diff block is empty
 	Layout int `json:"layout,omitempty"`
 }
 
@@ -288,6 +289,8 @@ func checkCLI(c EngCase) (ExOutcome, error) {
 			global, envSkip = strings.ReplaceAll(skipBlock, "\n  ", "\n")[2:], ""
 		case c.Layout == 2 && skipBlock != "":
 			global, envSkip = strings.ReplaceAll(skipBlock, "\n  ", "\n")[2:], "  diff {\n    concurrent_index {\n      create = true\n    }\n  }\n"
+		case c.Layout == 3 && skipBlock != "":
+			global, envSkip = strings.ReplaceAll(skipBlock, "\n  ", "\n")[2:], "  diff {\n  }\n"
 		}
 		sb.WriteFile("atlas.hcl", fmt.Sprintf("%sdata \"hcl_schema\" \"app\" {\n  path = \"schema.hcl\"\n}\nenv \"x\" {\n  src = data.hcl_schema.app.url\n  url = %q\n  dev = \"sqlite://dev?mode=memory\"\n  exclude = [%s]\n%s}\n",
 			global, "sqlite://"+cur, strings.Join(pats, ", "), envSkip))
@@ -298,6 +301,8 @@ func checkCLI(c EngCase) (ExOutcome, error) {
 			sb.WriteFile("atlas.hcl", strings.ReplaceAll(skipBlock, "\n  ", "\n")[2:]+"env \"x\" {\n}\n")
 		case 2:
 			sb.WriteFile("atlas.hcl", strings.ReplaceAll(skipBlock, "\n  ", "\n")[2:]+"env \"x\" {\n  diff {\n    concurrent_index {\n      create = true\n    }\n  }\n}\n")
+		case 3:
+			sb.WriteFile("atlas.hcl", strings.ReplaceAll(skipBlock, "\n  ", "\n")[2:]+"env \"x\" {\n  diff {\n  }\n}\n")
 		default:
 			sb.WriteFile("atlas.hcl", "env \"x\" {\n"+skipBlock+"}\n")
 		}
